@@ -272,6 +272,8 @@ def drive(tier):
 def run(tier):
     rep = Report("C18", tier)
     rep.add_mc("MC_P2P", vlib.run_mc("MC_P2P", cfg="MC_P2P" if tier == "quick" else "MC_P2P_thorough"))
+    import replay_p2p
+    replay_p2p.replay(rep, tier)            # specification -> code: TLC's behaviours performed on the implementation
     recs, nsecond, ndiff = vlib.second_pass(drive, tier)
     rep.cov["second_pass_calls"], rep.cov["second_pass_differing"] = nsecond, ndiff
     for x in recs:
@@ -299,4 +301,8 @@ def run(tier):
 
 
 def replay(path):
+    d_ = json.load(open(path))
+    if d_["record"].get("op") == "p2p.replay":
+        import replay_p2p
+        return replay_p2p.replay_record(d_)
     return vlib.replay_file("Trace_P2P", path)
